@@ -17,6 +17,11 @@ def classify(line):
     #  tier-default-action: an endpoint has the same tiers and policy lists, only a TierInfo default_action differs.
     # A case whose every differing cell is in one of these classes carries them joined by "+".  Anything else (another kind of
     # object differs, panic, stream not reference-closed) has class "other"/"panic"/"stream-not-closed" and is NEW.
+    if line.get("diff_class") == "l3":
+        # L3 resolver slice: the oracle is route table == route_of(final inputs).  On a tree that does not re-flag the
+        # routes contained in a changed block (driver probe, sample.reflag = false) a failure is the known class;
+        # on a tree with the repair every failure is new.
+        return None if line.get("sample", {}).get("reflag") else KEYS["route-block-flags"]
     parts = (line.get("diff_class") or "").split("+")
     if parts and all(p in KEYS for p in parts):
         return KEYS[parts[0]]
@@ -42,7 +47,13 @@ CFG = dict(
          "WorkloadIPs, VXLAN + BPF enabled (L3 route resolver and VXLAN resolver active).  For each history two FRESH graphs get only "
          "the final state (canonical and shuffled key order) + in-sync + flush.  Non-trivial = history contains a delete-while-"
          "referenced (profile used by a present endpoint, tier named by a present policy, matched policy, pool containing a block, "
-         "node owning a block) or a policy match that starts and stops between two effective flushes or a revert; distinct by history",
+         "node owning a block) or a policy match that starts and stops between two effective flushes or a revert; distinct by history.  "
+         "The Go driver also compares history and fresh dataplane at EVERY effective flush point inside a history and cuts the history "
+         "at the first point whose difference is outside the known classes (so the case given to Coq ends there).  One extra case per "
+         "three graph cases drives the REAL L3RouteResolver alone (6-35 updates: values of 3 /29 IPAM blocks with affinity none/any of "
+         "3 nodes and 0-4 allocations recorded for any node, block deletions, local workload endpoints on 12 addresses, repeats and "
+         "spurious deletes): model L3Reflag.l3_node (re-flag variant probed from the tree) must reproduce the emitted route table and "
+         "the table must equal route_of(final inputs); non-trivial there = a borrowed route and a live workload",
     trusted=["Coq 8.16.1 kernel + vm_compute",
              "the abstraction of felix/proto messages to Verif.C02.Model.msg terms done by harness/C01/cmd/main.go (abstract): ids and "
              "payload digests are numbered injectively per case; digest = deterministic protobuf encoding of the payload",
